@@ -172,6 +172,14 @@ func (vc *VC) modLocs(fi *FuncInfo, items []*ModItem, args []SV, st *State) []Lo
 
 func (vc *VC) applyContract(fr *Frame, callee *ssa.Function, fi *FuncInfo, args []SV, bind []SV, pos token.Pos) []SV {
 	cname := shortFn(callee)
+	if vc.usedContracts == nil {
+		vc.usedContracts = map[string]bool{}
+	}
+	for k, f := range vc.eng.infos {
+		if f == fi {
+			vc.usedContracts[k] = true
+		}
+	}
 	cargs := append(append([]SV{}, bind...), args...)
 	if callee.Signature.Variadic() {
 		// nothing special: the variadic parameter is a slice value
